@@ -1169,7 +1169,7 @@ MANIFEST = {
     "engine": "coq-model+go-differential",
     "level_claimed": {
         "category": "proof",
-        "text": "Coq theorems (23, closed under the global context) about an executable model of kvcache/causal.go in which the cell metadata and "
+        "text": "Coq theorems (24, closed under the global context) about an executable model of kvcache/causal.go in which the cell metadata and "
                 "the physical K/V rows per location are separate: for EVERY history of operations (forward batches mixing sequences, CopyPrefix, "
                 "Remove of prefixes/middles/suffixes with shift and the prescribed clean-up on failure, CanResume), every capacity, padding and window, the "
                 "cache state refines a multiset specification (C06_refines, by induction over the operation list; the defragmentation loop with its "
@@ -1190,6 +1190,6 @@ MANIFEST = {
                   "code with fixes/C06-defrag-merge.patch, fixes/C06-canresume-window.patch and fixes/C06-encoder-shift.patch (the defects of the code as found are theorems about fx=false). "
                   "Hypotheses: non-empty batches, positions in [0,MaxInt32), Remove with begin<=end, failing Remove followed by Remove(seq,0,MaxInt32). Partial: "
                   "the WrapperCache(EncoderCache, Causal) pair has no theorem of its own (its components have); CopyPrefix is outside the sliding-window "
-                  "protocol theorem; reserve=true of Causal and SetCausal are not modelled. See notes/C06.md.",
+                  "protocol theorem; SetCausal is not modelled (reserve=true is modelled and tied, without theorem). See notes/C06.md.",
     "technique": "Coq proof (invariants + refinement by induction over the operation list) + model/implementation differential check after every operation",
 }
